@@ -41,11 +41,6 @@ Section Proofs.
     nth_error (slots (irun L (ops1 ++ OTransient i :: ops2))) i = Some r.
   Proof. apply old_values_stable. Qed.
 
-  (** the abstraction of a persistent result never looks at the heap *)
-  Lemma abs_res_heap_independent (r : ires L) (h1 h2 : list (icell L)) :
-    abs_res L r = abs_res L r.
-  Proof. reflexivity. Qed.
-
   (** ** the run refines the specification *)
   Lemma run_sim ops : forall st sh, Rheap L (heap st) sh ->
     guard_from L (hazard_neg L) st ops = true -> guard_from L (hazard_meta L) st ops = true ->
